@@ -355,7 +355,7 @@ def analyse(prog, f, param_classes=None, callargs=None):
             cur_idx[0] = i
             for k, a in enumerate(c[3]):
                 if k < len(g.params) and g.params[k][1].replace("const ", "").strip() == "int":
-                    callargs.append((g.key, k, eclass(a) if const_of(a) is None else "const"))
+                    callargs.append((g.key, k, eclass(a) if const_of(a) is None else "const", c[4], f.name))
     uses = []
     for b, i, e in f.elements():
         if e[0] != "S":
@@ -388,10 +388,25 @@ def _param_classes(prog):
             continue
         analyse(prog, f, callargs=args)
     per = collections.defaultdict(set)
-    for (gk, k, c) in args:
+    sites = collections.defaultdict(list)
+    for (gk, k, c, loc, caller) in args:
         per[(gk, k)].add(c)
+        sites[(gk, k)].append((c, loc, caller))
+    try:
+        prog._idxclass_sites = sites
+    except Exception:
+        pass
     out = collections.defaultdict(dict)
     taken = getattr(prog, "addr_taken", ())
+    conflicts = []
+    for (gk, k), cs in per.items():
+        known = {c for c in cs if c in (ROW, STRUCT, COL)}
+        if len(known) > 1:
+            conflicts.append((gk, k, sorted(known)))
+    try:
+        prog._idxclass_conflicts = conflicts
+    except Exception:
+        pass
     for (gk, k), cs in per.items():
         g = prog.funcs.get(gk)
         if g is None or g.name in taken or not g.static:
@@ -438,6 +453,25 @@ def run(prog, scope_units=None, rule="R-IDXCLASS", exceptions=EXCEPT):
                                         "%s[%s]: the index is a %s index but the array is indexed by %s (%d site%s)%s" % (
                                             fld, itxt, have, need, len(locs), "s" if len(locs) > 1 else "",
                                             "; a structural index must be mapped through structmap[]" if (have, need) == (STRUCT, COL) else "")))
+    # sibling call sites must agree on the index space they pass to an int parameter that the callee uses as a subscript
+    if not scope_units:
+        nconf = 0
+        for (gk, k, classes) in getattr(prog, "_idxclass_conflicts", []):
+            g = prog.funcs.get(gk)
+            if g is None or g.live is None or k >= len(g.params):
+                continue
+            pname = g.params[k][0]
+            uses = [u for u in analyse(prog, g) if u[2] == pname]
+            if not uses:
+                continue
+            need = uses[0][3]
+            for (c, loc, caller) in prog._idxclass_sites[(gk, k)]:
+                if c in (ROW, STRUCT, COL) and c != need:
+                    nconf += 1
+                    res.violations.append(Violation(rule, "%s|parameter %s of %s given a %s index" % (caller.replace("mpq_", ""), pname, g.name.replace("mpq_", ""), c), caller, short_loc(loc),
+                                                    "%s subscripts %s[%s] (an array indexed by %s) with its parameter %s; this call passes a %s index there while "
+                                                    "other call sites pass a %s index" % (g.name, uses[0][1], pname, need, pname, c, need)))
+        res.counts["parameters_with_disagreeing_call_sites"] = nconf
     res.counts["subscripts_of_problem_arrays"] = res.obligations
     res.counts["with_typed_index"] = n_typed
     res.floor("subscripts with a typed index", n_typed, 150 if not scope_units else 10)
